@@ -54,7 +54,7 @@ def r18_1(ctx):
         region = arm_region(b, sw, arms[v])
         built = []
         for loc, s in b.iter_stmts(sorted(region)):
-            if s["k"] == "assign" and s["rv"]["k"] == "agg" and (s["rv"].get("adt") or "").endswith("vector::VectorDiff"):
+            if s["k"] == "assign" and s["rv"]["k"] == "agg" and (s["rv"].get("adt") or "").endswith("::VectorDiff"):
                 built.append((loc, s["rv"]))
         where = b.line_at((arms[v], 0))
         if not built:
